@@ -133,7 +133,8 @@ func signMirrorStmts(stmts []ast.Stmt) (string, bool) {
 		case *ast.ReturnStmt:
 			var rs []string
 			for _, r := range x.Results {
-				rs = append(rs, signMirrorExpr(r, false))
+				// a returned winding VALUE is negated by the mirror; a returned truth value or call is not
+				rs = append(rs, signMirrorExpr(r, returnsValue(r)))
 			}
 			out = append(out, "return "+strings.Join(rs, ", "))
 		case *ast.AssignStmt:
@@ -635,4 +636,22 @@ func ruleSegIntersectMirror(rule string) func(*Ctx) {
 				"the four end points play symmetric roles: a block that tests another point (p2 == p4 for p1 == p4) misses a segment that ends exactly on a rectangle corner")
 		}
 	}
+}
+
+// returnsValue: the returned expression is an arithmetic value (a selector, identifier other than true/false/nil,
+// unary minus, arithmetic), not a comparison, literal truth value or call.
+func returnsValue(e ast.Expr) bool {
+	switch x := e.(type) {
+	case *ast.ParenExpr:
+		return returnsValue(x.X)
+	case *ast.Ident:
+		return x.Name != "true" && x.Name != "false" && x.Name != "nil"
+	case *ast.SelectorExpr:
+		return true
+	case *ast.UnaryExpr:
+		return x.Op == token.SUB || x.Op == token.ADD
+	case *ast.BinaryExpr:
+		return !isCmp(x.Op) && x.Op != token.LAND && x.Op != token.LOR
+	}
+	return false
 }
